@@ -579,8 +579,8 @@ def cross_interpreter(prop, seeds, quarantine):
     seeds = list(seeds)[:150]
     mine = result_digests(seeds, quarantine)
     env = dict(_os.environ, PYTHONHASHSEED='271828')
-    code = ("import sys, json; sys.path.insert(0, %r); from sim import core, smachine; core.load_pjplan(); "
-            "print('XD ' + json.dumps(smachine.result_digests(%r, %r)))" % (core.VERIF_DIR, seeds, list(quarantine)))
+    code = ("import sys, json; sys.path.insert(0, %r); from sim import core, smachine; core.TIER = %r; core.load_pjplan(); "
+            "print('XD ' + json.dumps(smachine.result_digests(%r, %r)))" % (core.VERIF_DIR, core.TIER, seeds, list(quarantine)))
     p = _sp.run([_sys.executable, '-c', code], capture_output=True, text=True, env=env, timeout=1800)
     other = None
     for line in p.stdout.splitlines():
